@@ -159,6 +159,82 @@ def build_client_rx(item: dict[str, Any], box: dict[str, Any]) -> Any:
     return scenario
 
 
+def build_client_rx2(item: dict[str, Any], box: dict[str, Any]) -> Any:
+    """two connections one after the other (reconnect) and two transports open at the same time: bytes that were delivered on one
+    connection but not read yet (coalesced messages, a partial line) must never show up on another"""
+    msgs = [msg(tuple(s)) for s in item["msgs"]]
+    msgs_b = [bytes(x ^ 0xFF for x in m) for m in msgs][::-1]
+
+    def scenario(run: Run) -> None:
+        stream_a = b"".join(encode(m) for m in msgs) + item.get("tail", b"")
+        srcs = [Source([stream_a], eof=False), Source([encode(m) for m in msgs_b], eof=True)]
+        net = Net(run, lambda n: srcs[n] if n < 2 else None)
+        net.install()
+        results: list[tuple[Any, ...]] = []
+        box.update(results=results, net=net, want=msgs_b)
+        loop = run.loop
+
+        async def drv() -> None:
+            cls = G["unix"] if item["side"] == "unix" else G["tcp"]
+            url = "unix-lines:///tmp/x.sock" if item["side"] == "unix" else "tcp-lines://192.0.2.1:1234"
+            tr = await cls.connect(url)
+            try:
+                async def rd(t: Any) -> bytes:
+                    while True:  # (the explorer may let the timer win against the data: try again)
+                        try:
+                            return await t.read(timeout=1.0)
+                        except TimeoutError:
+                            continue
+
+                first = await rd(tr)  # the rest of connection A's bytes stay unread
+                results.append(("first", loop.time(), first))
+                if item.get("tail"):
+                    for _ in range(len(msgs) - 1):
+                        await rd(tr)
+                    try:
+                        await tr.read(timeout=0.5)  # times out in the middle of the unterminated tail
+                    except TimeoutError:
+                        pass
+                tr2 = (await tr.reconnect()) if item["how"] == "reconnect" else (await cls.connect(url))
+                while True:
+                    d = await rd(tr2)
+                    results.append(("msg", loop.time(), d))
+                    if d == b"":
+                        break
+                await tr2.close()
+                if item["how"] != "reconnect":
+                    await tr.close()
+            except Exception as e:  # noqa: BLE001
+                results.append(("exc", loop.time(), type(e).__name__ + ":" + str(e)[:80]))
+
+        task = loop.create_task(drv(), name="driver")
+        run.done = task.done
+        run.finish = net.uninstall  # type: ignore[attr-defined]
+
+    return scenario
+
+
+def judge_client_rx2(item: dict[str, Any], box: dict[str, Any], run: Run, choices: list[int], res: Result) -> None:
+    rp = {"item": item, "choices": choices}
+    results = box["results"]
+
+    def v(sig: str, m: str) -> None:
+        res.violate(f"C19|{item['side']}-rx|second-connection|{item['how']}|{sig}", m + f" [msgs={item['msgs']} tail={item.get('tail')!r}]", rp)
+
+    if run.status != "done":
+        v(f"hang|{run.status}", "reader did not finish")
+        return
+    excs = [r for r in results if r[0] == "exc"]
+    if excs:
+        v("exception|" + excs[0][2].split(":")[0], f"read raised {excs[0][2]}")
+        return
+    got = [r[2] for r in results if r[0] == "msg"]
+    want = box["want"] + [b""]
+    if got != want:
+        stale = [g for g in got if g and g not in box["want"]]
+        v("stale-bytes-of-other-connection" if stale else "sequence", f"second connection delivered {[g[:8].hex() for g in got]}, its peer sent {[w[:8].hex() for w in want]}")
+
+
 def judge_client_rx(item: dict[str, Any], box: dict[str, Any], run: Run, choices: list[int], res: Result) -> None:
     msgs = [msg(tuple(s)) for s in item["msgs"]]
     rp = {"item": item, "choices": choices}
@@ -360,8 +436,15 @@ def build_client_tx(item: dict[str, Any], box: dict[str, Any]) -> Any:
                 tr = await G["tcp"].connect("tcp-lines://192.0.2.1:1234")
             rets = []
             for m in msgs:
-                # (slow peer: no write timeout - whether the peer reads within a deadline is not the property's subject)
-                rets.append(await tr.write(m, timeout=1.0 if item.get("tx_room") is None else None))
+                # (slow peer: no write timeout - whether the peer reads within a deadline is not the property's subject -
+                # unless the item asks for it: then a write may end with TimeoutError, and what reaches the peer must still be whole messages)
+                tmo = 1.0 if item.get("tx_room") is None or item.get("write_timeout") else None
+                try:
+                    rets.append(await tr.write(m, timeout=tmo))
+                except TimeoutError:
+                    if not item.get("write_timeout"):
+                        raise
+                    rets.append("timeout")
             out["rets"] = rets
             await tr.close()
 
@@ -385,6 +468,20 @@ def judge_client_tx(item: dict[str, Any], box: dict[str, Any], run: Run, choices
     except ValueError:
         res.violate(f"C19|{side}-tx|not-hex", f"wire is not hex lines: {wire[:40]!r}", rp)
         return
+    if item.get("write_timeout"):
+        # writes may have timed out: the peer must see whole messages only, in order, among them every message whose write() returned
+        rets = box["out"].get("rets") or []
+        it = iter(msgs)
+        in_order = all(any(g == m for m in it) for g in got)
+        must = [m for m, r in zip(msgs, rets, strict=False) if r != "timeout"]
+        it2 = iter(got)
+        has_all = all(any(g == m for g in it2) for m in must)
+        if rest or not in_order or not has_all:
+            res.violate(
+                f"C19|{side}-tx|slow-peer-with-write-timeout|" + ("partial-line" if rest else "glued-or-reordered" if not in_order else "acknowledged-message-missing"),
+                f"peer received {len(got)} whole messages (+{len(rest)} stray bytes) for {len(msgs)} writes, {rets.count('timeout')} of which timed out [msgs={item['msgs'][:4]}..]", rp)
+        res.count("write_timeouts_observed", rets.count("timeout"))
+        return
     if rest or got != msgs:
         res.violate(f"C19|{side}-tx|wire-sequence", f"wire decodes to {len(got)} messages (+{len(rest)} stray bytes), written {len(msgs)} [msgs={item['msgs']}]", rp)
     if box["out"].get("rets") != [len(m) for m in msgs]:
@@ -393,6 +490,7 @@ def judge_client_tx(item: dict[str, Any], box: dict[str, Any], run: Run, choices
 
 MODES = {
     "rx": (build_client_rx, judge_client_rx),
+    "rx2": (build_client_rx2, judge_client_rx2),
     "server": (build_server, judge_server),
     "server2": (build_server, judge_server2),
     "tx": (build_client_tx, judge_client_tx),
@@ -523,6 +621,9 @@ def run_item(work: tuple[Any, ...]) -> Result:
                     if 0 < r[2] < stream_len:
                         res.count("timeouts_mid_stream")
                         res.seen("timeout_positions", (tuple(map(tuple, item["msgs"])), r[2]))
+        elif item["mode"] == "rx2":
+            res.count("second_connection_executions")
+            res.seen("states", ("rx2", item["side"], item["how"], tuple(box["results"])))
         elif item["mode"] == "server":
             res.seen("states", ("server", bytes(box["src"].rx), tuple(t for t, _ in box["conn"].wire)))
         elif item["mode"] == "server2":
@@ -599,6 +700,12 @@ def items(tier: str, seed: int) -> list[Any]:
             # requests that take differing times inside the ECU; two testers on one virtual ECU
             out.append(({"mode": "server", "msgs": sq + sq[::-1] + sq, "seg": "one", "delays": [0.3, 0.0, 0.1]}, 1, cap))
             out.append(({"mode": "server2", "msgs": sq + sq[::-1], "seg": "msgs"}, 2 if len(sq) == 1 else 1, cap))
+    # leftovers of one connection must not reach another (reconnect, two transports at once)
+    for sq in ([(2, "asc"), (1, "00")], [(1, "ff"), (2, "0a0d"), (255, "asc")], [(255, "00"), (255, "ff")]):
+        for side in ("tcp", "unix"):
+            for how in ("reconnect", "second-transport"):
+                for tail in (b"", b"0a0", b"ff"):
+                    out.append(({"mode": "rx2", "side": side, "msgs": sq, "how": how, "tail": tail}, 1, cap))
     # bursts
     burst = [SPECS[i % len(SPECS)] if SPECS[i % len(SPECS)][0] < 4095 else (3, "asc") for i in range(50)]
     for seg in ("one", "msgs", [7, 300, 301, 2000]):
@@ -607,6 +714,14 @@ def items(tier: str, seed: int) -> list[Any]:
     out.append(({"mode": "tx", "side": "tcp", "msgs": burst}, 0, cap))
     out.append(({"mode": "server", "msgs": burst, "seg": "one", "delays": [0.2, 0.0, 0.05, 0.4]}, 1, cap))
     out.append(({"mode": "server2", "msgs": burst[:12], "seg": "msgs"}, 1, cap))
+    for side in ("tcp", "unix"):
+        for sq in ([(4095, "asc"), (2, "00")], [(4095, "ff"), (4095, "asc"), (1, "00")], [(255, "asc")] * 3 + [(4095, "00")]):
+            # a slow peer AND a write timeout: the timer may fire while a message is only partly handed to the kernel
+            out.append(({"mode": "tx", "side": side, "msgs": sq, "tx_room": 100, "write_timeout": True}, 2 if not quick else 1, cap))
+            out.append(({"mode": "tx", "side": side, "msgs": sq * 6, "tx_room": 0, "write_timeout": True}, 1, cap))
+        # (different alignments of the 64 KiB high-water mark - where the writer is paused - relative to the message boundaries)
+        for sq in ([(4095, "ff")] * 12, [(4095, "asc"), (255, "00")] * 9, [(2, "00")] + [(4095, "ff")] * 10, [(255, "ff")] + [(4095, "asc")] * 11):
+            out.append(({"mode": "tx", "side": side, "msgs": sq, "tx_room": 0, "write_timeout": True}, 1, cap))
     big = [(4095, "asc"), (4095, "ff")] * 12  # > 64 KiB of hex lines: the transport pauses the writer until the peer has read
     for side in ("tcp", "unix"):
         for room in (0, 100):
